@@ -1,8 +1,11 @@
 package props
 
 import (
+	"context"
 	"errors"
 	"fmt"
+	"github.com/ajitpratap0/GoSQLX/pkg/sql/ast"
+	"github.com/ajitpratap0/GoSQLX/pkg/sql/parser"
 	"math/rand"
 	"regexp"
 	"strings"
@@ -74,6 +77,33 @@ func c03Check(sql string, want *dump.T) (string, string, string) {
 	return "", "", ""
 }
 
+type c03Door struct {
+	Name string
+	F    func(sql string) (*ast.AST, error)
+}
+
+// c03OtherDoors are further entry points a statement of the documented surface comes in by.
+func c03OtherDoors() []c03Door {
+	strict := func(ctx bool) func(string) (*ast.AST, error) {
+		return func(sql string) (*ast.AST, error) {
+			toks, err := mustTokenizer().Tokenize([]byte(sql + " ;"))
+			if err != nil {
+				return nil, err
+			}
+			p := parser.NewParser(parser.WithStrictMode())
+			if ctx {
+				return p.ParseContextFromModelTokens(context.Background(), toks)
+			}
+			return p.ParseFromModelTokens(toks)
+		}
+	}
+	return []c03Door{
+		{"gosqlx.ParseWithContext", func(sql string) (*ast.AST, error) { return gosqlx.ParseWithContext(context.Background(), sql) }},
+		{"strict:Parser.Parse", strict(false)},
+		{"strict:Parser.ParseContext", strict(true)},
+	}
+}
+
 func firstLine(s string) string {
 	if i := strings.IndexByte(s, '\n'); i >= 0 {
 		return s[:i]
@@ -121,6 +151,18 @@ func c03Random(a *ChildArgs) {
 			a.Rec.Count("evaluations", 1)
 			if id, clause, detail := c03Check(sql, want); id != "" {
 				a.Rec.Viol("C03/composed/"+id, clause, detail, map[string]interface{}{"sql": sql, "want": wantStr, "seed": seed, "pol": pol, "features": gen.Keys(g.Feat)})
+			} else if pol == 0 {
+				// the same statement through the context entry point, and with its terminator through a strict parser's
+				// plain and context entry points: the documented surface does not depend on the door
+				for _, ep := range c03OtherDoors() {
+					a.Rec.Count("evaluations", 1)
+					tree, err := ep.F(sql)
+					if err != nil {
+						a.Rec.Viol("C03/composed/"+ep.Name+"/reject/"+errIdentity(err), "a statement of the documented surface is never rejected", ep.Name+": "+firstLine(err.Error()), map[string]interface{}{"sql": sql, "entry_point": ep.Name, "seed": seed})
+					} else if d := dump.Diff(want, dump.Tree(tree)); d != "" {
+						a.Rec.Viol("C03/composed/"+ep.Name+"/tree"+dump.DiffKey(d), "the returned tree is the one the grammar prescribes", ep.Name+": "+d, map[string]interface{}{"sql": sql, "entry_point": ep.Name, "seed": seed})
+					}
+				}
 			} else if i < 3 && pol == 2 {
 				a.Rec.Sample("random", 3, map[string]string{"sql": sql, "model": trunc(wantStr, 400)})
 			}
@@ -188,7 +230,6 @@ func c03Catalogue(a *ChildArgs) {
 	x := cases[len(cases)/2].Build(g)
 	a.Rec.Sample("catalogue", 2, map[string]string{"id": cases[len(cases)/2].ID, "sql": gen.Plain(x.Toks)})
 }
-
 
 // c03RowCounts: "every literal appears in the tree with its written value" for the counts of LIMIT / OFFSET /
 // FETCH, which the tree stores as machine integers: a count is either carried exactly or the statement is
